@@ -272,7 +272,10 @@ PROPS["C07"] = {
              "LockId, depth, Count, Rcount, value of keys whose holders all survive, deadline within one unit + 1 s, never later); must-persist rule "
              "(persist-immediately flag, or older than the delay) and never-persist rule checked on instance 1; then a second restart on what the first "
              "one left behind (it compacts at start-up) must recover the same again. Non-trivial: >=2 log files or a value blob, a hold released before "
-             "the restart, and >=1 hold restored (class counters also report cases with a restored re-entrant hold of depth >= 2). Distinct = FNV-64 of the operation list + parameters."),
+             "the restart, and >=1 hold restored (class counters also report cases with a restored re-entrant hold of depth >= 2). Distinct = FNV-64 of the operation list + parameters. "
+             "12% of the attached SET values are 1.5..9 KB (larger than the value file's 4 KiB read/write buffer at aof_file_buffer_size 64, or adding up to more than it). "
+             "60% of the cases take 1..8 more holds (persist-immediately flag, fresh keys, a quarter with a value) on the restarted instance before the second restart: each must be "
+             "persisted at the quiescent point and restored by the second restart (class 'holds taken on the restarted instance and carried over the second restart')."),
     "assumptions": [
         "instance 1 runs on a harness-driven clock that lags the wall clock (hook H1); recovery runs on the wall clock as in production",
         "holds whose deadline lies within 6 s (+ one unit) of the restart instant may or may not be restored",
@@ -285,7 +288,7 @@ PROPS["C07"] = {
         "size-triggered compaction (a goroutine racing the workload) is not generated here",
     ],
     "units": [
-        rapid_unit("restart", "^TestC07_Restart$", quick={"checks": 1600, "shards": 16, "timeout_s": 900, "shrinktime": "45s"},
+        rapid_unit("restart", "^TestC07_Restart$", quick={"checks": 3200, "shards": 16, "timeout_s": 900, "shrinktime": "45s"},
                    thorough={"checks": 60000, "shards": 16, "timeout_s": 6000, "shrinktime": "90s"}),
         plain_unit("replay", "^TestC07_Replay$", replay=True),
     ],
@@ -351,16 +354,20 @@ PROPS["C08"] = {
              "the snapshot recovered from the copy cut at the preceding record boundary (metamorphic: torn bytes contribute nothing; value-file cuts: equal to the state of "
              "SOME complete-record prefix); then a second workload of persisted locks is run on the recovered instance, quiesced, and a following restart must recover the "
              "live persisted state. evaluations = generated histories; the class 'crash points' counts the cuts. Non-trivial: newest file has >=3 records and the case "
-             "contains a cut with residue != 0 or a value-file cut. Distinct = FNV-64 of history + cut lists."),
+             "contains a cut with residue != 0 or a value-file cut. Distinct = FNV-64 of history + cut lists. "
+             "55% of the cases also take crash images at write boundaries while the history runs (hook point 'log flush about to start: records buffered, nothing of this flush "
+             "written'; every 1st..3rd flush that finds the files changed, at most 5 per case; no size-triggered compaction in these cases, aof_file_buffer_size 64 in half of them, "
+             "a third of the tail values 4..17 KB so that values are written around the buffer): a fresh leader must start on each image, and the second workload + following restart "
+             "must recover what was persisted after it (an orphan value in the value file would be handed to the next value record)."),
     "assumptions": [
         "a failure is reported only if the same case fails again with the same key when it is executed again from its recorded operations (background goroutines are not owned); otherwise it is counted as unreproduced anomaly; holds whose deadline lies within the margin of the current time are not compared between two recoveries",
         "the file image at a system-call boundary is the crash state (un-synced page cache is not modelled)",
         "only the newest append file and its value file are cut (older files are complete by construction of the writer)",
-        "the crash point between the record write and the value write of one Flush is represented by value-file cuts; hook H4 is not used yet",
+        "the crash point between the record write and the value write of one Flush is represented by value-file cuts (hook H4 is used by C16 only); crash images at the start of a flush use hook point 20",
         "known findings of C07 (re-lock/update records, start-up compaction race) are excluded by construction here too",
     ],
     "units": [
-        rapid_unit("cuts", "^TestC08_CrashCut$", quick={"checks": 480, "shards": 16, "timeout_s": 900, "shrinktime": "45s"},
+        rapid_unit("cuts", "^TestC08_CrashCut$", quick={"checks": 1600, "shards": 16, "timeout_s": 900, "shrinktime": "45s"},
                    thorough={"checks": 8000, "shards": 16, "timeout_s": 6000, "shrinktime": "90s"}),
         plain_unit("replay", "^TestC08_Replay$", replay=True),
     ],
@@ -375,7 +382,10 @@ PROPS["C16"] = {
              "at the 1st, 2nd, 4th and 8th flush of it (before the records of the flush are written, and between its records and its values: partly written temp files). Every image and the final directory are recovered by a fresh "
              "leader: the in-package snapshot must equal the one recovered from the pre-compaction image, also when recovered a second time from what the first recovery left "
              "behind (it compacts again at start-up); the final directory must also recover the live persisted state. evaluations = histories; class 'crash images' counts the "
-             "enumerated crash points. Non-trivial: >=2 append files compacted, an existing rewrite file, and a released hold in the inputs. Distinct = FNV-64 of the history."),
+             "enumerated crash points. Non-trivial: >=2 append files compacted, an existing rewrite file, and a released hold in the inputs. Distinct = FNV-64 of the history. "
+             "10% of the operations are value-only requests (zero expiry, SET/UNSET/APPEND/INCR/PUSH, admitted next to the holders of a key whose Count permits: the log gets a record that only "
+             "changes the key's value); 35% of the cases start with a clock lag of 205 s and end with a clock step that puts the compaction exactly 60/120 s (80%; else 55..125 s) after the last update of "
+             "a hold with minute-unit terms (the compaction re-derives such deadlines with a one-minute granularity)."),
     "assumptions": [
         "a failure is reported only if the same case fails again with the same key when it is executed again from its recorded operations (background goroutines are not owned); otherwise it is counted as unreproduced anomaly; holds whose deadline lies within the margin of the current time are not compared between two recoveries",
         "the compaction under test runs in the harness goroutine (same body as the goroutine the server starts); compactions racing with appends are not generated",
@@ -383,7 +393,7 @@ PROPS["C16"] = {
         "crash images between the removal of the inputs and the renames are skipped while the two listed known findings are open (counted in evidence); the C07 known findings are excluded by construction",
     ],
     "units": [
-        rapid_unit("compaction", "^TestC16_Compaction$", quick={"checks": 480, "shards": 16, "timeout_s": 900, "shrinktime": "45s"},
+        rapid_unit("compaction", "^TestC16_Compaction$", quick={"checks": 1600, "shards": 16, "timeout_s": 900, "shrinktime": "45s"},
                    thorough={"checks": 8000, "shards": 16, "timeout_s": 6000, "shrinktime": "90s"}),
         plain_unit("replay", "^TestC16_Replay$", replay=True),
     ],
